@@ -229,6 +229,25 @@ Theorem C15_ml_spec_is_maximiser :
 Proof. exact ml_exact_maximiser. Qed.
 Print Assumptions C15_ml_spec_is_maximiser.
 
+(* Gaussian.compute_cov() as modelled: the matrix cached in .cov is the argument itself for cov=, the code's R R^T for
+   sqrtcov=R, and a two-sided inverse of the precision for prec=P (P) and sqrtprec=R (R^T R -- the precision the
+   log-density |R (x - mean)|^2 uses, for EVERY shape of a user-supplied factor R: the whole matrix is read).
+   The harness compares the implementation's .cov with this value (check_compute_cov) and MAP / the direct sampler after
+   compute_cov() read this value in the model, not the observed one *)
+Theorem C15_compute_cov_spec :
+  forall (p : gparam) (dim : nat) (c : covform) (C : list (list Qc)),
+  compute_cov_model p dim c = Some C ->
+  let M := sq_of dim c in
+  match p with
+  | PCov => C = M
+  | PPrec => qmatmul (length M) M C = qident (length M) /\ qmatmul (length M) C M = qident (length M)
+  | PSqrtcov => C = qmatmul dim M (qtranspose dim M)
+  | PSqrtprec => let P := qmatmul dim (qtranspose dim M) M in
+                 qmatmul (length P) P C = qident (length P) /\ qmatmul (length P) C P = qident (length P)
+  end.
+Proof. exact compute_cov_spec. Qed.
+Print Assumptions C15_compute_cov_spec.
+
 (* the whole cascade of sample_posterior (joint = target still a JointDistribution, s = hasattr(prior,
    "sqrtprecTimesMean"), q = hasattr(likelihood.distribution, "sqrtprec")): Gibbs iff joint; the direct route iff not joint
    and the closed-form condition; what each later choice implies about the posterior's structure *)
